@@ -14,6 +14,7 @@ namespace {
 struct Opt {
     bool unrelated = false;       // T5: other parameters / calibration in the same vnacal_t first
     bool per_frequency = false;   // T6: one vnacal_new_t per frequency
+    int shared_order = 0;         // T6: 0 = a fresh vnacal_t per frequency; 1 / 2 = ONE vnacal_t (the same parameter handles), frequencies descending / in tape order
     C ab_scale = C(1, 0);         // T4
 };
 
@@ -70,6 +71,30 @@ Scenario at_frequency(const Scenario &sc, int f) {
 
 // run: returns false if solve failed (rc), corrected DUT in out
 bool run_once(Ctx &c, Scenario sc, const Opt &o, std::vector<Mat> &out, std::string &why, const std::vector<double> &fullgrid) {
+    if (o.per_frequency && sc.F > 1 && o.shared_order != 0) {
+        // one vnacal_t: the vector parameters are made once and evaluated by one vnacal_new_t per frequency, in an
+        // order that is not ascending (their values must not depend on what was evaluated before)
+        out.assign(sc.F, Mat());
+        Runner base(c, sc); base.ab_scale = o.ab_scale; base.create();
+        for (auto &st : sc.stds) for (auto &cell : st.cells) if (cell.kind == SCell::VECTOR && cell.uparam < 0) (void)base.handle_of(cell);
+        std::vector<int> order; for (int f = 0; f < sc.F; f++) order.push_back(sc.F - 1 - f);
+        if (o.shared_order == 2) for (size_t i = order.size(); i > 1; i--) std::swap(order[i - 1], order[c.draw(i)]);
+        for (int f : order) {
+            Scenario sf = at_frequency(sc, f);
+            Runner run(c, sf); run.ab_scale = o.ab_scale; run.vcp = base.vcp; run.borrowed_vcp = true;
+            run.alloc();
+            int idx = 0;
+            for (auto &st : sf.stds) { int rc = run.add(st); PBT_CHECK(c, rc == 0, "C17.add_refused", "standard %d (%s) refused at frequency %d: %s", idx, st.describe().c_str(), f, base.log.text().c_str()); idx++; }
+            if (vnacal_new_solve(run.vnp) != 0) { why = "solve failed: " + base.log.text(); return false; }
+            int ci = vnacal_add_calibration(run.vcp, "main", run.vnp);
+            PBT_CHECK(c, ci >= 0, "C17.add_calibration", "add_calibration failed: %s", base.log.text().c_str());
+            if (vnacal_find_calibration(run.vcp, "main") >= 0) ci = vnacal_find_calibration(run.vcp, "main");
+            std::vector<Mat> o1;
+            if (run.apply(ci, sf.dut, o1) != 0) { why = "apply failed: " + base.log.text(); return false; }
+            out[f] = o1[0];
+        }
+        return true;
+    }
     if (o.per_frequency && sc.F > 1) {
         out.clear();
         for (int f = 0; f < sc.F; f++) {
@@ -85,7 +110,7 @@ bool run_once(Ctx &c, Scenario sc, const Opt &o, std::vector<Mat> &out, std::str
     if (o.unrelated) add_unrelated(c, run.vcp, run.log);
     run.alloc();
     // vector parameters are defined on the FULL frequency grid even when this run covers one frequency
-    for (auto &st : sc.stds) for (auto &cell : st.cells) if (cell.kind == SCell::VECTOR && cell.handle < 0) {
+    for (auto &st : sc.stds) for (auto &cell : st.cells) if (cell.kind == SCell::VECTOR && cell.handle < 0 && cell.kf.empty()) {
         std::vector<dcx> g; for (auto &x : cell.v) g.push_back(mkc((double)x.real(), (double)x.imag()));
         cell.handle = vnacal_make_vector_parameter(run.vcp, fullgrid.data(), (int)fullgrid.size(), g.data());
         PBT_CHECK(c, cell.handle >= 0, "C17.make_vector", "make_vector_parameter failed: %s", run.log.text().c_str());
@@ -137,6 +162,35 @@ void pbt_property(Ctx &c) {
     g.baseline(); g.extras(); g.cover_leakage(); g.shuffle();
     long double kappa = 0;
     for (int f = 0; f < sc.F; f++) { vm::Ident id = ident_at(sc, f); if (!id.determining) { c.label("filtered:not-determining"); return; } kappa = std::max(kappa, id.kappa); }
+    // T3 / T5 / T6: vector standards on their OWN knot grid (6..9 knots on 0.8 fmin .. 1.25 fmax, none of them a
+    // calibration frequency), values on a smooth function of the frequency that the library's rational interpolation
+    // only approximates (error ~1e-6, treated like perturbed data): the calibration frequencies fall between the knots,
+    // so every evaluation goes through the interpolator, and which knots it uses -- its search state -- matters
+    bool own_knots = false;
+    if ((T == 3 || T == 5 || T == 6) && c.chance(2, 3)) {
+        bool any = false;
+        for (auto &st : sc.stds) {
+            bool touched = false;
+            for (auto &cell : st.cells) if (cell.kind == SCell::VECTOR && cell.uparam < 0) {
+                C base = cell.v[0], al = rnd_disk(c, 0, 0.3L), be = rnd_disk(c, 0, 0.2L);
+                double fm = 0.5 * (sc.freq.front() + sc.freq.back()), span = std::max(sc.freq.back() - sc.freq.front(), 0.1 * fm);
+                long double phi = 1.5L * (c.unit() - 0.5L);     // a rotation the rational interpolant only approximates: WHICH knots it uses matters
+                auto gfun = [&](double f) { long double t = (long double)((f - fm) / span); return base * polar(1, phi * t) * (C(1, 0) + al * t) / (C(1, 0) + be * t); };
+                int K = 6 + (int)c.draw(4); double lo = 0.8 * sc.freq.front(), hi = 1.25 * sc.freq.back();
+                cell.kf.clear(); cell.kv.clear();
+                for (int k = 0; k < K; k++) {
+                    double f = k == 0 ? lo : k == K - 1 ? hi : lo + (hi - lo) * (k + 0.6 * (c.unit() - 0.5)) / (K - 1);
+                    for (double cf : sc.freq) if (std::fabs(f - cf) < 1e-3 * cf) f = cf * 1.01;
+                    if (!cell.kf.empty() && f <= cell.kf.back()) f = cell.kf.back() * 1.001;
+                    cell.kf.push_back(f); cell.kv.push_back(gfun(f));
+                }
+                for (int f = 0; f < sc.F; f++) cell.v[f] = gfun(sc.freq[f]);
+                touched = any = true;
+            }
+            if (touched) g.finish(st);
+        }
+        if (any) { c.label("vector-standards:own-knots"); own_knots = true; }
+    }
     sc.dut = gen_dut(c, sc.P, sc.F);
     // T5 also with self-calibration: an extra double reflect whose two ports carry the SAME unknown reflection (one
     // handle used in two cells), guess within 10 % -- the handle identity must survive whatever else lives in the
@@ -158,6 +212,7 @@ void pbt_property(Ctx &c) {
         }
     }
     bool perturbed = c.boolean();
+    if (own_knots) perturbed = true;      // the interpolant differs from the model's value by its (tiny) interpolation error: inconsistent data, as with noise
     if (T == 2 || T == 8) perturbed = false;             // "for data that fit the error model" / leakage samples differ
     if (T == 4 && !sc.ab) sc.ab = true;
     if (perturbed) for (auto &st : sc.stds) for (int f = 0; f < sc.F; f++) { Mat N(sc.r, sc.c); for (auto &x : N.a) x = C(1e-3L * (2 * c.unit() - 1), 1e-3L * (2 * c.unit() - 1)); st.noise.push_back(N); }
@@ -190,7 +245,7 @@ void pbt_property(Ctx &c) {
         break;
     case 4: o2.ab_scale = polar(c.boolean() ? 0.1L + 9.9L * c.unit() : std::pow(10.0L, -12 + 24 * c.unit()), 2 * M_PIl * c.unit()); changed = true; break;     // ordinary or extreme (1e-12 .. 1e12) common scale
     case 5: o2.unrelated = true; changed = true; break;
-    case 6: o2.per_frequency = true; changed = sc.F > 1; break;
+    case 6: o2.per_frequency = true; o2.shared_order = (int)c.draw(3); changed = sc.F > 1; { char l[40]; snprintf(l, sizeof l, "T6:order=%d", o2.shared_order); c.label(l); } break;
     case 7: s2.type = sc.type == vm::E12 ? vm::UE14 : vm::E12; for (auto &b : s2.box) b.type = s2.type; changed = true; break;
     case 8: { for (int p = 0; p < sc.P; p++) pi.push_back(p); for (size_t i = pi.size(); i > 1; i--) { size_t j = c.draw(i); if (j != i - 1) changed = true; std::swap(pi[i - 1], pi[j]); } s2 = renumber(sc, pi); break; }
     }
